@@ -1865,7 +1865,10 @@ impl<'a> Socket<'a> {
 
         // If a FIN is received at the end of the current segment, but
         // we have a hole in the assembler before the current segment, disregard this FIN.
-        if control == TcpControl::Fin && window_start < segment_start {
+        // Likewise if the segment extends beyond the receive window: its tail has been
+        // trimmed off above, so the FIN that follows that tail has not been reached yet.
+        if control == TcpControl::Fin && (window_start < segment_start || window_end < segment_end)
+        {
             tcp_trace!(
                 "ignoring FIN because we don't have full data yet. window_start={} segment_start={}",
                 window_start,
